@@ -6,6 +6,7 @@ import (
 	"sort"
 	"strings"
 	"sync"
+	"sync/atomic"
 	"time"
 
 	"github.com/acquirecloud/golibs/errors"
@@ -25,6 +26,23 @@ func init() {
 }
 
 const unknownVersion = "00000000000000000000000000" // a version string no backend ever hands out
+
+// unknownVersions: strings no backend ever hands out - shaped like a version that sorts before every real one, like
+// one that sorts after every real one, and the empty string
+var unknownVersions = []string{unknownVersion, "7ZZZZZZZZZZZZZZZZZZZZZZZZZ", ""}
+var unknownCtr int64
+
+func someUnknownVersion() string {
+	return unknownVersions[int(atomic.AddInt64(&unknownCtr, 1))%len(unknownVersions)]
+}
+func isUnknownVersion(v string) bool {
+	for _, u := range unknownVersions {
+		if v == u {
+			return true
+		}
+	}
+	return false
+}
 
 type kvBackend struct {
 	st      kvs.Storage
@@ -165,7 +183,7 @@ func (r *kvRun) matchVer(model int, real string) bool {
 
 func (r *kvRun) argVer(model int) string {
 	if model == 0 {
-		return unknownVersion
+		return someUnknownVersion()
 	}
 	if b, ok := r.bound[model]; ok {
 		return b
